@@ -970,6 +970,8 @@ func (x *Exec) execIfM(s *State, n *ast.IfStmt) []*State {
 	if s.dead {
 		return nil
 	}
+	// syntactic pruning: a branch whose condition contradicts a conjunct already on the path is not explored
+	c = x.pruneCond(s, c)
 	var outs []*State
 	if c != False {
 		t := s.clone()
@@ -1489,4 +1491,61 @@ func sameCalls(a, b []callRec) bool {
 		}
 	}
 	return true
+}
+
+// pruneCond returns False (True) when the path condition of s syntactically refutes (establishes) c: some
+// conjunct of c is the negation of an assumed conjunct (every conjunct of c is an assumed conjunct). Sound: only
+// branches that are unreachable under the current assumptions are dropped.
+func (x *Exec) pruneCond(s *State, c *Term) *Term {
+	if c == True || c == False {
+		return c
+	}
+	known := map[*Term]bool{}
+	var add func(t *Term)
+	add = func(t *Term) {
+		if t.K == TApp && t.Op == "and" {
+			for _, a := range t.Args {
+				add(a)
+			}
+			return
+		}
+		known[t] = true
+	}
+	for _, h := range s.assumes {
+		add(h)
+	}
+	conj := []*Term{c}
+	if c.K == TApp && c.Op == "and" {
+		conj = c.Args
+	}
+	all := true
+	for _, k := range conj {
+		if known[Not(k)] {
+			return False
+		}
+		if !known[k] {
+			all = false
+		}
+	}
+	if all {
+		return True
+	}
+	// c is a negation of a conjunction all of whose conjuncts are known: c is false
+	if c.K == TApp && c.Op == "not" {
+		inner := c.Args[0]
+		ic := []*Term{inner}
+		if inner.K == TApp && inner.Op == "and" {
+			ic = inner.Args
+		}
+		ok := true
+		for _, k := range ic {
+			if !known[k] {
+				ok = false
+			}
+		}
+		if ok {
+			return False
+		}
+	}
+	return c
 }
